@@ -475,7 +475,7 @@ theorem C04_del_empty_container_removes_key (fuel : Nat) (sf : Flags) (sk : Comp
     (.comp (replaceOtherFlags vf cf) vk []) false hget rfl
   · exact C04_del_exact_prio (fuel + 1) (ePrio vf) cf vf ck vk ccs [] hck hwf hd hle
       (c04_prioGe_empty vf vk) rfl |>.1
-  · simp [Node.truthy, hvk]
+  · cases vk <;> simp_all [Node.truthy, CompKind.isFunc, CompKind.func?]
   · exact c04_hasPrio_false_of_le (by simp [Node.flags, ePrio, replaceOtherFlags, mergeSafe])
   · exact hdel
 
